@@ -34,38 +34,47 @@ pub enum Node {
     Number(Decimal),
 }
 
-fn gamma(a: Decimal) -> Decimal {
-    let mut s = Decimal::new(2485740891387535655, 27);
+/// Lanczos coefficients c0..c10 of the approximation also used by `eval_f64`.
+fn lanczos_coefficients() -> [Decimal; 11] {
+    [
+        Decimal::new(2485740891387535655, 23),
+        Decimal::new(1051423785817219742, 18),
+        Decimal::new(-3456870972220162354, 18),
+        Decimal::new(4512277094668948237, 18),
+        Decimal::new(-2982852253235766557, 18),
+        Decimal::new(1056397115771267131, 18),
+        Decimal::new(-1954287731916458696, 19),
+        Decimal::new(1709705434044412243, 20),
+        Decimal::new(-5719261174043057813, 22),
+        Decimal::new(4633994733599056367, 24),
+        Decimal::new(-2719949084886077039, 27),
+    ]
+}
+
+/// Gamma(z) for z >= 0.5; `None` when an intermediate result leaves the Decimal range.
+fn lanczos(z: Decimal) -> Option<Decimal> {
+    let c = lanczos_coefficients();
+    let mut s = c[0];
+    for (k, coefficient) in c.iter().enumerate().skip(1) {
+        s = s.checked_add(coefficient.checked_div(z.checked_add(Decimal::new(k as i64 - 1, 0))?)?)?;
+    }
+    let compute_pow = z
+        .checked_add(Decimal::new(10400511, 6))?
+        .checked_div(Decimal::new(2718281828459045235, 18))?
+        .checked_powd(z.checked_sub(Decimal::new(5, 1))?)?;
+    s.checked_mul(Decimal::new(1860382734205265717, 18))?
+        .checked_mul(compute_pow)
+}
+
+fn gamma(a: Decimal) -> Option<Decimal> {
     if a < Decimal::new(5, 1) {
-        s += Decimal::new(1051423785817219742, 20) / (Decimal::new(1, 0) - a);
-        s += Decimal::new(-3456870972220162354, 22) / (Decimal::new(2, 0) - a);
-        s += Decimal::new(4512277094668948237, 20) / (Decimal::new(3, 0) - a);
-        s += Decimal::new(-2982852253235766557, 22) / (Decimal::new(4, 0) - a);
-        s += Decimal::new(1056397115771267131, 22) / (Decimal::new(5, 0) - a);
-        s += Decimal::new(-1954287731916458696, 23) / (Decimal::new(6, 0) - a);
-        s += Decimal::new(1709705434044412243, 24) / (Decimal::new(7, 0) - a);
-        s += Decimal::new(-5719261174043057813, 24) / (Decimal::new(8, 0) - a);
-        s += Decimal::new(4633994733599056367, 28) / (Decimal::new(9, 0) - a);
-        s += Decimal::new(-2719949084886077039, 31) / (Decimal::new(10, 0) - a);
-        let compute_sin = (Decimal::new(3141592653589793238, 18) * a).sin(); // 3.14159265358979323846264338327950288419716939937510582
-        let compute_pow = ((a - Decimal::new(10400511, 6)) / Decimal::new(2718281828459045235, 18))
-            .powd(Decimal::new(5, 1) - a);
-        Decimal::new(3141592653589793238, 18)
-            / (compute_sin * s * Decimal::new(1860382734205265717, 18) * compute_pow)
+        // reflection: Gamma(a) = pi / (sin(pi * a) * Gamma(1 - a))
+        let pi = Decimal::new(3141592653589793238, 18);
+        let compute_sin = pi.checked_mul(a)?.checked_sin()?;
+        let reflected = lanczos(Decimal::new(1, 0).checked_sub(a)?)?;
+        pi.checked_div(compute_sin.checked_mul(reflected)?)
     } else {
-        s += Decimal::new(1051423785817219742, 20) / a;
-        s += Decimal::new(-3456870972220162354, 22) / (a + Decimal::new(1, 0));
-        s += Decimal::new(4512277094668948237, 20) / (a + Decimal::new(2, 0));
-        s += Decimal::new(-2982852253235766557, 22) / (a + Decimal::new(3, 0));
-        s += Decimal::new(1056397115771267131, 22) / (a + Decimal::new(4, 0));
-        s += Decimal::new(-1954287731916458696, 23) / (a + Decimal::new(5, 0));
-        s += Decimal::new(1709705434044412243, 24) / (a + Decimal::new(6, 0));
-        s += Decimal::new(-5719261174043057813, 24) / (a + Decimal::new(7, 0));
-        s += Decimal::new(4633994733599056367, 28) / (a + Decimal::new(8, 0));
-        s += Decimal::new(-2719949084886077039, 31) / (a + Decimal::new(9, 0));
-        let compute_pow = ((a + Decimal::new(10400511, 6)) / Decimal::new(2718281828459045235, 18))
-            .powd(a - Decimal::new(5, 1));
-        s * Decimal::new(1860382734205265717, 18) * compute_pow
+        lanczos(a)
     }
 }
 
@@ -97,7 +106,7 @@ pub fn eval(expr: Node) -> Result<Decimal, Box<dyn error::Error>> {
             let sub_result = eval(*sub_expr)?;
             if sub_result >= Decimal::ZERO {
                 if (sub_result % Decimal::new(1, 0)) > Decimal::ZERO {
-                    Ok(gamma(sub_result + Decimal::new(1, 0)))
+                    Ok(gamma(sub_result + Decimal::new(1, 0)).ok_or("Decimal overflow")?)
                 } else {
                     let mut factorial_result = Decimal::new(1, 0);
                     for i in 2..=sub_result.to_i64().unwrap() {
@@ -110,7 +119,7 @@ pub fn eval(expr: Node) -> Result<Decimal, Box<dyn error::Error>> {
             } else if (sub_result % Decimal::new(1, 0)) == Decimal::ZERO {
                 return Err("The factorial function is not defined for {}.".into());
             } else {
-                Ok(gamma(sub_result + Decimal::new(1, 0)))
+                Ok(gamma(sub_result + Decimal::new(1, 0)).ok_or("Decimal overflow")?)
             }
         }
         LambertW(expr) => {
